@@ -15,7 +15,7 @@ import copy
 import warnings
 import numpy as np
 
-from common import req, close, relerr, TOL, run_driver
+from common import req, close, TOL, run_driver
 import scen_bpm
 
 META = {
